@@ -803,11 +803,13 @@ theorem addObjectPlan_res (s : Img) (di : DI) (topt : TOpt) (now : Int) :
             | error e => rfl
             | ok d' => rfl
 
-theorem live_nil_of_full (s : Img) (W : WF s) (h : s.h.dfree = s.h.dtotal) : live s.rds = [] := by
-  have := W.acct
-  rw [h] at this
-  have hl : ((live s.rds).length : Int) = 0 := by omega
-  exact List.eq_nil_of_length_eq_zero (by omega)
+theorem live_nil_of_empty (s : Img) (h : s.isEmpty = true) : live s.rds = [] := by
+  unfold Img.isEmpty at h
+  simp only [Bool.not_eq_eq_eq_not, Bool.not_true, List.any_eq_false] at h
+  unfold live
+  rw [List.filter_eq_nil_iff]
+  intro d hd
+  simpa using h d hd
 
 theorem primaryCheck_abs (s : Img) (W : WF s) (md : MDIn) :
     primaryCheck ph s md =
@@ -821,8 +823,8 @@ theorem primaryCheck_abs (s : Img) (W : WF s) (md : MDIn) :
     · simp only [hpt, ↓reduceIte]
       rw [abs_hasPrimary]
       unfold getDescriptors
-      by_cases hfull : s.h.dfree == s.h.dtotal
-      · have hl := live_nil_of_full s W (by simpa using hfull)
+      by_cases hfull : s.isEmpty = true
+      · have hl := live_nil_of_empty s hfull
         simp [hfull, hl]
       · simp only [hfull, Bool.false_eq_true, ↓reduceIte]
         rw [selectDescs_pure ph [.partType partPrimSys] s.rds (fun d => d.isPartitionOfType partPrimSys)
